@@ -450,6 +450,8 @@ type Engine struct {
 	sharedPkgs map[*ssa.Package]bool
 
 	skip map[string]bool
+
+	rtypeType types.Type
 }
 
 func (e *Engine) noteFunc(fn *ssa.Function) {
